@@ -311,6 +311,8 @@ VARIANTS += [
     V("twin-decrease-nodes-none-first", ["C14", "C06"], C, "        newknotvec = copy(self.knotvector)\n        newknotvec.degree -= times\n        knots = newknotvec.knots if newknotvec.degree != 0 else None\n", "        newknotvec = copy(self.knotvector)\n        newknotvec.degree -= times\n        knots = None if newknotvec.degree == 0 else newknotvec.knots\n", None, None, "conditional the other way round", twin=True),
     V("evaluator-slice-rebuilt", ["C02"], "functions", "        vector = func.knotvector\n        self.__knotvector = vector\n        self.__weights = func.weights\n", "        vector = func.knotvector\n        if isinstance(i, slice):\n            i = slice(*i.indices(vector.npts))\n        self.__knotvector = vector\n        self.__weights = func.weights\n", "SLICE-REBUILD", "FunctionEvaluator.__init__", "slice resolved against npts and rebuilt as a slice"),
     V("twin-evaluator-rows-range", ["C02"], "functions", "        vector = func.knotvector\n        self.__knotvector = vector\n        self.__weights = func.weights\n", "        vector = func.knotvector\n        rows = range(*i.indices(vector.npts)) if isinstance(i, slice) else None\n        self.__knotvector = vector\n        self.__weights = func.weights\n", None, None, "resolved rows kept as a range (unused)", twin=True),
+    V("derivate-point-differences", ["C09"], CA, "        matrix = heavy.Calculus.derivate_nonrational_spline(tuple(knotvector))\n        ctrlpoints = np.dot(matrix, curve.ctrlpoints)\n", "        matrix = heavy.Calculus.derivate_nonrational_spline(tuple(knotvector))\n        points = curve.ctrlpoints\n        ctrlpoints = tuple(line[i + 1] * (points[i + 1] - points[i]) for i, line in enumerate(matrix))\n", "POINT-OPS", "nonrational_spline", "differences of control points"),
+    V("twin-derivate-explicit-sum", ["C09"], CA, "        matrix = heavy.Calculus.derivate_nonrational_spline(tuple(knotvector))\n        ctrlpoints = np.dot(matrix, curve.ctrlpoints)\n", "        matrix = heavy.Calculus.derivate_nonrational_spline(tuple(knotvector))\n        points = curve.ctrlpoints\n        ctrlpoints = tuple(line[i] * points[i] + line[i + 1] * points[i + 1] for i, line in enumerate(matrix))\n", None, None, "bidiagonal product written out with scalar * point + scalar * point", twin=True),
     V("insert-divide-by-umax", ["C04"], H, "        one = knotvector[-1] - knotvector[0]\n", "        one = knotvector[-1]\n", "D", "one_knot_insert_once", "unit made from the last knot alone (0 for an interval ending at 0)", near=908),
     V("increase-in-place-kv", ["C06"], C, "        nodes = self.knotvector.knots\n        newnodes = times * nodes\n        newvector = self.knotvector + newnodes\n        oldvector = tuple(self.knotvector)\n        matrix = heavy.Operations.degree_increase(oldvector, times)\n", "        oldvector = tuple(self.knotvector)\n        matrix = heavy.Operations.degree_increase(oldvector, times)\n        newvector = KnotVector(self.knotvector)\n        newvector.degree += times\n", "SHARED-KV", "degree_increase", "the stored KnotVector object is elevated in place"),
 ]
